@@ -20,7 +20,7 @@ CONSTANTS Containers,   \* subset of {"list", "dict1", "dict2", "dict3"} (nestin
           Forms,        \* subset of {"bare", "v", "lv", "vl"}
           ValForms,     \* subset of {"float", "int", "sci"}
           OptForms,     \* subset of {"none", "vary_false", "vary_true", "nonneg", "bounds", "expr"}
-          Defaults,     \* subset of {"none", "vary_false", "nonneg"}
+          Defaults,     \* subset of {"none", "vary_false", "nonneg", "bounds"} ("bounds": a default block that sets min and max)
           MaxItems
 
 VARIABLES container, dflt, dfltpos, items, done
@@ -53,6 +53,7 @@ Expected(c, d, its) ==
                         ELSE d # "vary_false"),
       non_negative |-> (it.opts = "nonneg" \/ d = "nonneg"),
       bounds       |-> (it.opts = "bounds"),
+      dbounds      |-> (d = "bounds" /\ it.opts # "bounds"),      \* the default block's bounds, unless the item has its own
       expr         |-> (it.opts = "expr"),
       ref          |-> (IF it.opts = "expr" THEN RefOf(c, its, i) ELSE 0)]]
 
@@ -81,10 +82,12 @@ ExprNotVaried == done => \A i \in 1..Len(items) : Exp[i].expr => ~Exp[i].vary
 OwnOptionsWin == done => \A i \in 1..Len(items) :
      /\ (items[i].opts = "vary_true" => Exp[i].vary)
      /\ (items[i].opts = "vary_false" => ~Exp[i].vary)
+     /\ (items[i].opts = "bounds" => (Exp[i].bounds /\ ~Exp[i].dbounds))
 (* the default block applies to every item that says nothing itself *)
 DefaultsApply == done => \A i \in 1..Len(items) :
      /\ ((dflt = "vary_false" /\ items[i].opts \notin {"vary_true"}) => ~Exp[i].vary)
      /\ (dflt = "nonneg" => Exp[i].non_negative)
+     /\ ((dflt = "bounds" /\ items[i].opts # "bounds") => Exp[i].dbounds)
 (* an expression refers to something that is not itself an expression *)
 RefIsPlain == done => \A i \in 1..Len(items) :
      (Exp[i].expr /\ container = "list") => (Exp[i].ref # i /\ items[Exp[i].ref].opts # "expr")
